@@ -377,6 +377,21 @@ Proof.
   - cbn [map]. f_equal. clear E. generalize (N c). induction rest as [|a r IH]; intros h; cbn [fold_left map]; auto.
 Qed.
 
+Lemma habs_horner_gen zs xz : zs <> [] -> habs zs xz = horner (A := AZ) (map N zs) (N xz).
+Proof.
+  intros Nz. pose proof (habs_peval zs xz Nz) as E.
+  rewrite (peval_horner AZ_ring) in E by (destruct zs; [congruence|discriminate]). now injection E.
+Qed.
+
+Lemma conv_fits_of_pmul zs ws :
+  Forall (fun c => c < B53) (pmul (A := AZ) (map N zs) (map N ws)) -> conv_fits zs ws.
+Proof.
+  intros H Nz Nw k Hk. destruct zs as [|a0 zs']; [now elim Nz|]. destruct ws as [|b0 ws']; [now elim Nw|].
+  cbn [map] in H. unfold pmul in H. rewrite <- !(map_cons N), !map_length in H.
+  change (@length (T AZ)) with (@length Z) in *.
+  exact (Forall_map_seq _ _ _ _ H k ltac:(lia)).
+Qed.
+
 (* ---------------------------------------------------------------- the laws, bit for bit *)
 Section Bits.
 Hypothesis Rs_unique : forall x y a, Rs x a -> Rs y a -> x = y.
